@@ -179,6 +179,12 @@ impl WorkerPool {
 
     /// Dispatch packet to a worker (round-robin)
     pub fn dispatch(&self, packet: Vec<u8>) -> DispatchResult {
+        #[cfg(feature = "verif-hooks")]
+        crate::verif_hooks::sched::point(
+            crate::verif_hooks::sched::Site::DispatchEnter,
+            usize::MAX,
+            &packet,
+        );
         // Check if pool is shutting down
         if self.shutdown_flag.load(Ordering::Relaxed) {
             return DispatchResult::Dropped;
@@ -192,6 +198,12 @@ impl WorkerPool {
                 return DispatchResult::Dropped;
             }
         };
+        #[cfg(feature = "verif-hooks")]
+        crate::verif_hooks::sched::point(
+            crate::verif_hooks::sched::Site::DispatchChosen,
+            worker_id,
+            &packet,
+        );
 
         self.dispatched_count.fetch_add(1, Ordering::Relaxed);
 
@@ -199,6 +211,12 @@ impl WorkerPool {
             match sender.try_send(packet) {
                 Ok(()) => DispatchResult::Queued,
                 Err(_) => {
+                    #[cfg(feature = "verif-hooks")]
+                    crate::verif_hooks::sched::point(
+                        crate::verif_hooks::sched::Site::DispatchDropped,
+                        worker_id,
+                        &[],
+                    );
                     self.dropped_count.fetch_add(1, Ordering::Relaxed);
                     self.worker_dropped[worker_id].fetch_add(1, Ordering::Relaxed);
                     DispatchResult::Dropped
@@ -281,6 +299,12 @@ impl WorkerPool {
 
             // Process entire batch
             for packet in batch.drain(..) {
+                #[cfg(feature = "verif-hooks")]
+                crate::verif_hooks::sched::point(
+                    crate::verif_hooks::sched::Site::WorkerDequeue,
+                    worker_id,
+                    &packet,
+                );
                 match Self::process_packet(&packet, &mut tcp_flows, filter_config.as_deref()) {
                     Ok(Some(result)) => {
                         if result_sender.send(result).is_err() {
@@ -291,6 +315,12 @@ impl WorkerPool {
                     Ok(None) => {}
                     Err(_) => {}
                 }
+                #[cfg(feature = "verif-hooks")]
+                crate::verif_hooks::sched::point(
+                    crate::verif_hooks::sched::Site::WorkerProcessed,
+                    worker_id,
+                    &packet,
+                );
             }
         }
 
